@@ -260,7 +260,7 @@ def main():
             thms = vlib.theorems_of(mod.PROPS_MODULE)
         except OSError:
             thms = []
-    hits = vlib.forbidden_scan()
+    hits = vlib.forbidden_scan(mod.PROPS_MODULE)
     proof_problems = []
     if not drv_ok:
         proof_problems.append("lake build amqdrv failed")
